@@ -8,7 +8,12 @@
 //	reset [next=<n>]                      fresh requester; optionally presets the id allocator (wrap tests)
 //	req s=<act>                           one top-level issue; <act> is a script item (below)
 //	noroute cb=<0|1>                      node-level app.Request whose route finds no target
-//	deliver k=<tag> kind=ok|nil|err|bad w=<n> [code=<int32>]   the peer answers the message it received for instance <tag>
+//	areq peer=echo|hold s=<act>           node-level app.Request routed through the cluster directory to the peer that answers at
+//	                                      once with TestHello{7000+tag} (echo) or to the scripted one that holds requests (hold)
+//	anotify peer=echo|hold|none [ser=0]   node-level app.Notify to such a peer (none: no routable target)
+//	deliver k=<tag> kind=ok|nil|err|bad|empty w=<n> [code=<int32>]   (empty: a reply of the field-less type EmptyArg; ok w=0 and empty
+//	                                      serialise to ZERO bytes and must still arrive as a non-nil message of their type)
+//	                                      the peer answers the message it received for instance <tag>
 //	                                      (kind=err: ErrCode = code, default 999; any code != 0 is an error reply)
 //	inject id=<n> kind=ok|nil|err|bad w=<n>     a raw ServiceResponse for an arbitrary id reaches the requester
 //	adv dt=<ms> [order=<tag,...>]         virtual time passes (the 1 s expiry scan runs inside);
@@ -64,7 +69,9 @@ import (
 	as "github.com/dfklegend/cell2/actorex/service"
 	messages "github.com/dfklegend/cell2/actorex/service/servicemsgs"
 	"github.com/dfklegend/cell2/node/app"
+	"github.com/dfklegend/cell2/node/cluster"
 	ns "github.com/dfklegend/cell2/node/service"
+	"github.com/dfklegend/cell2/nodectrl/define"
 	"github.com/dfklegend/cell2/utils/common"
 )
 
@@ -111,7 +118,8 @@ type reqSvc struct{ *ns.NodeService }
 
 type peerSvc struct {
 	*as.Service
-	w *world
+	w    *world
+	echo bool // answers every request at once with TestHello{7000+tag}
 }
 
 func (p *peerSvc) ReceiveRequest(ctx actor.Context, request *messages.ServiceRequest, raw interface{}) {
@@ -120,17 +128,21 @@ func (p *peerSvc) ReceiveRequest(ctx actor.Context, request *messages.ServiceReq
 		return
 	}
 	w := p.w
+	k := int(m.I)
 	w.mu.Lock()
-	defer w.mu.Unlock()
 	c := w.cur
 	if c == nil || c.pid == nil || request.Sender.Id != c.pid.Id {
+		w.mu.Unlock()
 		return
 	}
-	k := int(m.I)
 	if _, dup := c.recv[k]; !dup {
 		c.recv[k] = request
 	}
 	c.sent = append(c.sent, fmt.Sprintf("%d:%d:%s", k, request.ReqId, request.Route))
+	w.mu.Unlock()
+	if p.echo {
+		p.Response(request, 0, "", &messages.TestHello{I: int32(7000 + k)}) // a notification is not answered (ResponseEx)
+	}
 }
 
 type world struct {
@@ -173,6 +185,9 @@ func classify(err error, msg interface{}) string {
 		}
 		if msg == nil {
 			return "ok:nil"
+		}
+		if m, ok := msg.(*messages.EmptyArg); ok && m != nil {
+			return "ok:empty"
 		}
 		return "ok:?"
 	}
@@ -245,7 +260,11 @@ func (c *caseCtx) mkcb(k int, sub []*act) as.ResCBFunc {
 }
 
 // issue runs on the requester's own goroutine.
-func (c *caseCtx) issue(a *act, route string) {
+func (c *caseCtx) issue(a *act, route string) { c.issueVia(a, route, "") }
+
+// issueVia: via == "" sends straight to the scripted peer's PID; otherwise through node/app (route
+// "peer.remote.hello", routeParam = the directory name of the target service).
+func (c *caseCtx) issueVia(a *act, route string, via string) {
 	c.mu.Lock()
 	k := c.nextTag
 	c.nextTag++
@@ -256,6 +275,18 @@ func (c *caseCtx) issue(a *act, route string) {
 	var msg interface{} = &messages.TestHello{I: int32(k)}
 	if a.kind == 'F' || a.kind == 'f' || a.kind == 'n' {
 		msg = plain{k}
+	}
+	if via != "" {
+		switch a.kind {
+		case 'R', 'F':
+			f := c.mkcb(k, a.sub)
+			app.Request(c.svc.NodeService, "peer.remote.hello", via, msg, func(e error, r any) { f(e, r) })
+		case 'r', 'f':
+			app.Request(c.svc.NodeService, "peer.remote.hello", via, msg, nil)
+		case 'N', 'n':
+			app.Notify(c.svc.NodeService, "peer.remote.hello", via, msg)
+		}
+		return
 	}
 	switch a.kind {
 	case 'R', 'F':
@@ -365,8 +396,32 @@ func newWorld() *world {
 		panic(err)
 	}
 	w.peerPid = pid
+	eprops, _ := as.NewServicePropsWithNewScheDisp(func() actor.Actor {
+		p := &peerSvc{Service: as.NewService(), w: w, echo: true}
+		p.Service.InitReqReceiver(p)
+		return p
+	}, "c01echo")
+	if _, err := w.sys.Root.SpawnNamed(eprops, "c01echo"); err != nil {
+		panic(err)
+	}
+	// the cluster directory names both peers; its host:port PIDs resolve to the local actors
+	w.sys.ProcessRegistry.RegisterAddressResolver(func(pid *actor.PID) (actor.Process, bool) {
+		return w.sys.ProcessRegistry.GetLocal(pid.Id)
+	})
+	app.Node.GetCluster().UpdateClusterTopology([]*cluster.Member{{Id: "c@n1", Host: "h", Port: 1, State: int(define.Working),
+		Services: []string{"peer.c01peer", "peer.c01echo"}}})
 	synctest.Wait()
 	return w
+}
+
+func peerName(p string) string {
+	switch p {
+	case "echo":
+		return "c01echo"
+	case "hold":
+		return "c01peer"
+	}
+	return ""
 }
 
 // errCode reads the optional code=<int32> of an error reply (default CodeErrString).
@@ -389,6 +444,8 @@ func mkResponse(id int32, kind string, wv int, code int32) *messages.ServiceResp
 		b, _ := protoMarshalHello(int32(wv))
 		r.Type, r.Body = "servicemsgs.TestHello", b
 	case "nil":
+	case "empty":
+		r.Type, r.Body = "servicemsgs.EmptyArg", []byte{}
 	case "err":
 		r.ErrCode, r.ErrInfo = code, fmt.Sprintf("E%d", wv)
 	case "bad":
@@ -535,6 +592,36 @@ func (w *world) exec(op string) (string, string) {
 		}
 		c.onSvc(func() { c.issue(acts[0], "a.b") })
 		return op, c.observe("ok")
+	case "areq":
+		s, _ := hx.KV(ws, "s")
+		i := 0
+		acts := parseActs(s, &i)
+		pn, _ := hx.KV(ws, "peer")
+		if len(acts) != 1 || acts[0].kind == 'P' || acts[0].kind == 'N' || acts[0].kind == 'n' || peerName(pn) == "" {
+			return op, "bad-op"
+		}
+		c.onSvc(func() { c.issueVia(acts[0], "remote.hello", peerName(pn)) })
+		return op, c.observe("ok")
+	case "anotify":
+		pn, _ := hx.KV(ws, "peer")
+		kind := byte('N')
+		if v, ok := hx.KV(ws, "ser"); ok && v == "0" {
+			kind = 'n'
+		}
+		if pn == "none" {
+			c.onSvc(func() {
+				c.mu.Lock()
+				c.iss = append(c.iss, fmt.Sprintf("x:X@%d", c.now()))
+				c.mu.Unlock()
+				app.Notify(c.svc.NodeService, "peer.remote.hello", "", &messages.TestHello{I: 1})
+			})
+			return op, c.observe("ok")
+		}
+		if peerName(pn) == "" {
+			return op, "bad-op"
+		}
+		c.onSvc(func() { c.issueVia(&act{kind: kind}, "remote.hello", peerName(pn)) })
+		return op, c.observe("ok")
 	case "noroute":
 		hasCb := hx.KVInt(ws, "cb") == 1
 		c.onSvc(func() {
@@ -577,6 +664,8 @@ func (w *world) exec(op string) (string, string) {
 			w.peer.Post(func() { w.peer.Response(req, 0, "", &messages.TestHello{I: int32(wv)}) })
 		case "nil":
 			w.peer.Post(func() { w.peer.Response(req, 0, "", nil) })
+		case "empty":
+			w.peer.Post(func() { w.peer.Response(req, 0, "", &messages.EmptyArg{}) })
 		case "err":
 			code := errCode(ws)
 			w.peer.Post(func() { w.peer.Response(req, code, fmt.Sprintf("E%d", wv), nil) })
@@ -619,7 +708,9 @@ func (w *world) exec(op string) (string, string) {
 	return op, "bad-op"
 }
 
-func validKind(k string) bool { return k == "ok" || k == "nil" || k == "err" || k == "bad" }
+func validKind(k string) bool {
+	return k == "ok" || k == "nil" || k == "err" || k == "bad" || k == "empty"
+}
 
 func protoMarshalHello(v int32) ([]byte, error) {
 	// field 1 (I), varint
@@ -706,6 +797,10 @@ var errCodes = []int64{-1, -999, -2147483648, 1, 999, 1000, 2147483647}
 func (g *gen) payloadKind() string {
 	switch x := g.h.R.Intn(10); {
 	case x < 5:
+		if g.h.R.Intn(8) == 0 {
+			g.h.Count("reply.empty-type")
+			return "empty"
+		}
 		return "ok"
 	case x < 6:
 		return "nil"
@@ -740,6 +835,15 @@ func (c *caseCtx) outstanding() []int {
 		}
 	}
 	return out
+}
+
+// wval: the value carried by an ok reply; 0 often (an all-default message serialises to zero bytes)
+func (g *gen) wval() int {
+	if g.h.R.Intn(5) == 0 {
+		g.h.Count("reply.zero-value")
+		return 0
+	}
+	return g.h.R.Intn(1000)
 }
 
 func (g *gen) genCase(run func(string)) {
@@ -796,7 +900,16 @@ func (g *gen) genCase(run func(string)) {
 		case len(out) < target && x < 45:
 			a := g.act(0)
 			h.Count("op.req." + a[:1])
-			run("req s=" + a)
+			switch y := r.Intn(8); {
+			case y <= 2 && (a[0] == 'N' || a[0] == 'n'):
+				h.Count("op.anotify")
+				run("anotify peer=" + []string{"echo", "hold", "hold", "none"}[r.Intn(4)] + map[byte]string{'N': "", 'n': " ser=0"}[a[0]])
+			case y <= 1 && a[0] != 'N' && a[0] != 'n':
+				h.Count("op.areq")
+				run("areq peer=" + []string{"echo", "hold"}[r.Intn(2)] + " s=" + a)
+			default:
+				run("req s=" + a)
+			}
 		case x < 50:
 			switch y := r.Intn(12); {
 			case y < 5:
@@ -827,7 +940,7 @@ func (g *gen) genCase(run func(string)) {
 				k = c.nextTag + r.Intn(3)
 				h.Count("op.deliver.unknown")
 			}
-			op := fmt.Sprintf("deliver k=%d kind=%s w=%d", k, g.payloadKind(), r.Intn(1000))
+			op := fmt.Sprintf("deliver k=%d kind=%s w=%d", k, g.payloadKind(), g.wval())
 			run(op)
 			if r.Intn(5) == 0 {
 				h.Count("op.deliver.duplicate")
@@ -851,7 +964,7 @@ func (g *gen) genCase(run func(string)) {
 				}
 			}
 			h.Count("op.inject")
-			run(fmt.Sprintf("inject id=%d kind=%s w=%d", id, g.payloadKind(), r.Intn(1000)))
+			run(fmt.Sprintf("inject id=%d kind=%s w=%d", id, g.payloadKind(), g.wval()))
 		default:
 			// time: aim at the deadline of some outstanding request
 			dt := 1 + r.Intn(2000)
@@ -880,7 +993,7 @@ func (g *gen) genCase(run func(string)) {
 		run("adv dt=" + strconv.Itoa(31000+r.Intn(1500)))
 		c := g.w.cur
 		for j := 0; j < 3 && c.nextTag > 0; j++ {
-			run(fmt.Sprintf("deliver k=%d kind=%s w=%d", r.Intn(c.nextTag), g.payloadKind(), r.Intn(1000)))
+			run(fmt.Sprintf("deliver k=%d kind=%s w=%d", r.Intn(c.nextTag), g.payloadKind(), g.wval()))
 		}
 		run("adv dt=1500")
 	}
